@@ -240,6 +240,7 @@ type c17Gated struct {
 	hist      strings.Builder
 
 	drops, removalsWhileBlocked, deliveries int
+	overCapacity                            int // units accepted although the model's queue was full
 }
 
 func (h *c17Gated) fail(format string, args ...any) {
@@ -302,18 +303,39 @@ func (h *c17Gated) opWrite(fi int, aud bool) {
 	payload, want := c17MakePayload(f.kind, fi, n, aud)
 	fmt.Fprintf(&h.hist, " W(f%d#%d)", fi, n)
 	before := h.strm.InboundFramesInError()
+	pre := make([]uint64, len(h.readers))
+	for i, g := range h.readers {
+		if g.alive {
+			pre[i] = g.r.OutboundFramesDiscarded()
+		}
+	}
 	h.sub.WriteUnit(f.media, f.forma, &unit.Unit{PTS: int64(n) * 960, Payload: payload})
 	if e := h.strm.InboundFramesInError(); e != before {
 		h.fail("unit f%d#%d rejected by the stream", fi, n)
 	}
-	for _, g := range h.readers {
+	for i, g := range h.readers {
 		if !g.alive || !g.subs[fi] {
 			continue
 		}
-		if len(g.queue) == h.queueSize {
+		// The statement permits a skip only when the reader's queue (WriteQueueSize units) is full and wants it
+		// counted; it does not oblige an implementation to skip at that exact occupancy (one that pulls queued
+		// units in batches holds more). So the reader's own counter says whether this unit was skipped, the model
+		// says whether a skip was permitted, and the deliveries that follow show whether the counter told the truth
+		// (an uncounted skip, or a counted unit that is delivered all the same, breaks the expected order below).
+		switch d := g.r.OutboundFramesDiscarded() - pre[i]; {
+		case d > 1:
+			h.fail("reader %d: one written unit (f%d#%d) raised OutboundFramesDiscarded() by %d", g.id, fi, n, d)
+		case d == 1:
+			if len(g.queue) < h.queueSize {
+				h.fail("reader %d: unit f%d#%d was skipped although the reader's queue was not full (queue=%d/%d, blocked=%v)",
+					g.id, fi, n, len(g.queue), h.queueSize, g.inCallback != nil)
+			}
 			g.dropped++
 			h.drops++
 			continue
+		}
+		if len(g.queue) >= h.queueSize {
+			h.overCapacity++
 		}
 		g.queue = append(g.queue, c17Item{fi: fi, n: n, want: want})
 		h.expectEntered(g)
@@ -565,6 +587,9 @@ func TestVerifC17Delivery(t *testing.T) {
 		}
 		if h.deliveries > 0 {
 			classes = append(classes, "delivery")
+		}
+		if h.overCapacity > 0 {
+			classes = append(classes, "accepted-beyond-WriteQueueSize")
 		}
 		classes = append(classes, fmt.Sprintf("q%d", queueSize))
 		rec.Case(h.drops > 0 && h.removalsWhileBlocked > 0, fmt.Sprintf("q=%d%s", queueSize, h.hist.String()), classes...)
